@@ -32,7 +32,7 @@ def run(chk, replay=None):
     try:
         # ---- (a) model -> code: enumerated case table
         vlib.replay_cases(chk, "C16Cases", vlib.cfg("C16_cases_%s.cfg" % tier, SEED=seed), "c16.cases", "cases_replay",
-                          opts={"revpass": 1}, timeout=1500)
+                          opts={"revpass": 1, "arena": 1}, timeout=1500)
         chk.cov["exhaustive"] = True    # all counts 0..15; all RDN sequences up to the stated length over the stated alphabet
 
         # ---- (b) code -> model: recorded random calls judged by TLC
